@@ -181,7 +181,7 @@ func DamageFen(fen string, rng *PRNG) (string, string) {
 	ranks := strings.Split(f[0], "/")
 	join := func() string { return strings.Join(append([]string{strings.Join(ranks, "/")}, f[1:]...), " ") }
 	for tries := 0; tries < 8; tries++ {
-		switch rng.Intn(18) {
+		switch rng.Intn(19) {
 		case 0: // rank overflow: digit past the edge
 			i := rng.Intn(len(ranks))
 			ranks[i] = ranks[i] + []string{"1", "8", "9", "p", "PPPP"}[rng.Intn(5)]
@@ -251,6 +251,15 @@ func DamageFen(fen string, rng *PRNG) (string, string) {
 			i := rng.Intn(len(ranks))
 			ranks[i] = []string{"xxxxxxxx", "8x", "pP?pPpPp", "४४", "1-6"}[rng.Intn(5)]
 			return join(), "bad_chars"
+		case 18: // material no game can produce (one king each, geometry fine)
+			f[0] = []string{
+				"qqqqkqqq/qqqqqqqq/qqqqqqqq/pppppppp/8/8/8/4K3",
+				"4k3/8/8/8/PPPPPPPP/QQQQQQQQ/QQQQQQQQ/QQQQKQQQ",
+				"rrrrkrrr/rrrrrrrr/8/8/8/8/8/4K3",
+				"4k3/8/8/8/8/NNNNNNNN/BBBBBBBB/QQQQKQQQ",
+				"qqqqkqqq/qqqqqqqq/qqqqqqqq/qqqqqqqq/8/8/7P/4K3",
+			}[rng.Intn(5)]
+			return strings.Join(f, " "), "impossible_material"
 		case 14: // en passant square anywhere on the board (edge ranks, wrong rank for the side to move, no pawn)
 			if len(f) < 4 {
 				continue
@@ -355,6 +364,13 @@ func GenC16Session(seed uint64) *Scenario {
 	lastPos := ""
 	var lastRoot *rules.Pos
 	for s := 0; s < n; s++ {
+		if rng.Intn(100) < 5 {
+			// the handler's own perft command with a depth no move list can hold
+			st := add(gapAfterResult(rng), "damaged", "perft "+[]string{"700", "1000000", "9223372036854775807", "99999999999999999999"}[rng.Intn(4)])
+			st.Orig, st.Fault = "perft 1", "F7_perft_depth_out_of_range"
+			add(int64(rng.Intn(2000)), "send", "stop")
+			probe()
+		}
 		if s > 0 && rng.Intn(100) < 10 {
 			// option values at the edge of the announced range (Hash: min 0)
 			emit(gapAfterResult(rng), fmt.Sprintf("setoption name Hash value %d", []int{0, 0, 1, 3}[rng.Intn(4)]))
